@@ -3,6 +3,7 @@ package main
 import (
 	"fmt"
 	"go/types"
+	"regexp"
 	"strings"
 
 	"golang.org/x/tools/go/ssa"
@@ -215,12 +216,32 @@ func mkSlice(t types.Type, base, off, ln, cp string) Val {
 
 // typeKey is a stable printable key for a type (used in heap keys and type tags).
 func typeKey(t types.Type) string {
-	return types.TypeString(t, func(p *types.Package) string { return p.Path() })
+	return canonBasic(types.TypeString(types.Unalias(t), func(p *types.Package) string { return p.Path() }), t)
 }
 
 func shortTypeKey(t types.Type) string {
-	return types.TypeString(t, func(p *types.Package) string { return p.Name() })
+	return canonBasic(types.TypeString(types.Unalias(t), func(p *types.Package) string { return p.Name() }), t)
 }
+
+// canonBasic maps the predeclared aliases byte/rune to uint8/int32 so that heap keys agree.
+func canonBasic(s string, t types.Type) string {
+	if b, ok := types.Unalias(t).(*types.Basic); ok {
+		switch b.Kind() {
+		case types.Uint8:
+			return "uint8"
+		case types.Int32:
+			return "int32"
+		}
+	}
+	if strings.Contains(s, "byte") || strings.Contains(s, "rune") {
+		s = reByte.ReplaceAllString(s, "uint8")
+		s = reRune.ReplaceAllString(s, "int32")
+	}
+	return s
+}
+
+var reByte = regexp.MustCompile(`\bbyte\b`)
+var reRune = regexp.MustCompile(`\brune\b`)
 
 func zeroScalar(t types.Type) string {
 	s := scalarSort(t)
